@@ -47,10 +47,13 @@ def check(kind, name):
     return bad
 
 
+CORPUS = [" lead", "  two", 'a"b', 'q""x', 'x"', '""', "a b", "a;b=c", "250 x", "-> y", "é", "rev=2; final"]
+
+
 def search(rnd, n):
     found = {}
     for i in range(n):
-        name = gen_name(rnd)
+        name = CORPUS[i] if i < len(CORPUS) else gen_name(rnd)
         for kind in ("pwd", "mlsx", "list"):
             for b in check(kind, name):
                 found.setdefault(b, {"kind": kind, "name": name})
